@@ -574,6 +574,17 @@ def block_diagonalize(
                 key: np.array(sympy.sympify(value).applyfunc(NumberOrderedForm.from_expr))
                 for key, value in fully_diagonalize.items()
             }
+            # A number-conserving term of a diagonal element connects a level with
+            # itself and cannot be eliminated.
+            for mask in fully_diagonalize.values():
+                for i in range(min(mask.shape)):
+                    if mask[i, i] and any(
+                        all(power == 0 for power in term) for term in mask[i, i].terms
+                    ):
+                        raise ValueError(
+                            "Full diagonalization must not eliminate matrix elements"
+                            " corresponding to equal eigenvalues."
+                        )
             if hermitian:
                 # Like the boolean masks, operator masks must be symmetric: the powers
                 # selected in an element are the adjoints of those in its transpose.
